@@ -1,6 +1,478 @@
-//! Seeded random driver (I->S): contract-respecting random histories with value ranges the
-//! exhaustive model constants cannot reach. Filled in below.
-use crate::Stats;
-use vcommon::Trie;
+//! Seeded random driver (I->S): contract-respecting random histories of public calls with value
+//! ranges and lengths the exhaustive model constants cannot reach (large identifiers' worth of
+//! traffic, many connections, all roles / versions / id widths, every option). Choices are made
+//! against what the REAL object returned so far (Track), so the environment contract of the
+//! properties holds by construction: identifiers come from acquire, a QoS>0 PUBLISH uses a freshly
+//! acquired identifier, PUBREL is sent only for an exchange whose PUBREC arrived, timers fire only
+//! when armed, after a close request (or a cut frame) only notify_closed follows.
+use crate::model::*;
+use crate::{execute_from, Source, Stats, Track};
+use std::collections::VecDeque;
+use vcommon::{Rng, Trie};
 
-pub fn drive(_trie: &mut Trie, _st: &mut Stats, _n: usize, _seed: u64, _steps: usize, _profile: &str) {}
+struct Driver {
+    rng: Rng,
+    steps: usize,
+    profile: String,
+    first: Call,
+    setup: VecDeque<Call>,
+    pending: VecDeque<Call>,
+    want_publish: Option<(i64, String, i64)>, // (qos, topic, alias) waiting for its acquire
+    want_sub: Option<String>,
+    msg: u64,
+}
+
+fn pick<'a, T>(rng: &mut Rng, v: &'a [T]) -> &'a T {
+    &v[rng.below(v.len() as u64) as usize]
+}
+
+impl Driver {
+    fn hostile(&self) -> bool {
+        self.profile == "hostile"
+    }
+    fn w(&self, names: &[&str], base: u64, boosted: u64) -> u64 {
+        if names.contains(&self.profile.as_str()) {
+            boosted
+        } else {
+            base
+        }
+    }
+
+    fn ver(&self, t: &Track) -> String {
+        if t.ver == "undet" {
+            "v311".into()
+        } else {
+            t.ver.clone()
+        }
+    }
+
+    fn connect_pkt(&mut self, ver: &str) -> P {
+        let r = &mut self.rng;
+        let mut p = P::of("connect", ver);
+        p.clean = r.chance(1, 2);
+        p.ka = *pick(r, &[0, 0, 5, 10, 65535]);
+        if ver == "v50" {
+            p.rm = *pick(r, &[-1, -1, 1, 2, 3, 65535]);
+            p.tam = *pick(r, &[-1, -1, 0, 1, 2, 3]);
+            p.mps = *pick(r, &[-1, -1, -1, 4, 9, 12, 16, 100]);
+            p.sei = *pick(r, &[-1, 0, 10, 10]);
+        }
+        p
+    }
+
+    fn connack_pkt(&mut self, ver: &str) -> P {
+        let r = &mut self.rng;
+        let mut p = P::of("connack", ver);
+        let fail = r.chance(1, 12);
+        if fail {
+            p.rc = if ver == "v50" { 135 } else { 5 };
+            return p;
+        }
+        p.sp = r.chance(1, 2);
+        if ver == "v50" {
+            p.rm = *pick(r, &[-1, -1, 1, 2, 3, 65535]);
+            p.tam = *pick(r, &[-1, -1, 0, 1, 2, 3]);
+            p.mps = *pick(r, &[-1, -1, -1, 2, 4, 9, 12, 16, 100]);
+            p.sei = *pick(r, &[-1, -1, 0, 10]);
+            p.ska = *pick(r, &[-1, -1, 0, 5]);
+        }
+        p
+    }
+
+    fn publish_pkt(&mut self, ver: &str, qos: i64, pid: i64, tam: i64, inbound: bool) -> P {
+        let mut p = P::of("publish", ver);
+        p.qos = qos;
+        p.pid = if qos > 0 { pid } else { 0 };
+        let topics = ["t1", "t2"];
+        p.topic = pick(&mut self.rng, &topics).to_string();
+        self.msg += 1;
+        p.msg = format!("m{}", self.msg % 7);
+        if ver == "v50" && self.rng.chance(2, 5) {
+            let hi = if self.hostile() || inbound { tam + 1 } else { tam.max(1) };
+            p.alias = self.rng.range(if self.hostile() { 0 } else { 1 }, hi.max(1));
+            if self.rng.chance(1, 3) {
+                p.topic = "".into(); // alias only
+            }
+        }
+        p.dup = inbound && qos > 0 && self.rng.chance(1, 5);
+        p
+    }
+
+    fn ack(kind: &str, ver: &str, pid: i64, rc: i64) -> P {
+        let mut p = P::of(kind, ver);
+        p.pid = pid;
+        p.rc = if ver == "v50" { rc } else { 0 };
+        p
+    }
+}
+
+fn send(p: P) -> Call {
+    let mut c = Call::of("send");
+    c.pkt = p;
+    c
+}
+fn recv(p: P) -> Call {
+    let mut c = Call::of("recv");
+    c.pkt = p;
+    c.flag = true;
+    c
+}
+
+impl Source for Driver {
+    fn next(&mut self, t: &Track, step: usize) -> Option<Call> {
+        if step == 0 {
+            return Some(self.first.clone());
+        }
+        if let Some(c) = self.setup.pop_front() {
+            return Some(c);
+        }
+        if step > self.steps {
+            return None;
+        }
+        // multi-call operations first
+        if let Some((qos, topic, alias)) = self.want_publish.take() {
+            if let Some(pid) = t.held.last().copied() {
+                let v = self.ver(t);
+                let mut p = P::of("publish", &v);
+                p.qos = qos;
+                p.pid = pid;
+                p.topic = topic;
+                p.alias = alias;
+                self.msg += 1;
+                p.msg = format!("m{}", self.msg % 7);
+                return Some(send(p));
+            }
+        }
+        if let Some(kind) = self.want_sub.take() {
+            if let Some(pid) = t.held.last().copied() {
+                let v = self.ver(t);
+                let mut p = P::of(&kind, &v);
+                p.pid = pid;
+                return Some(send(p));
+            }
+        }
+        if let Some(c) = self.pending.pop_front() {
+            return Some(c);
+        }
+        if t.close_req || t.partial {
+            return Some(Call::of("closed"));
+        }
+        let v = self.ver(t);
+        let can_client = t.role != "server" && t.ver != "undet";
+        let can_server = t.role != "client";
+        let r = self.rng.below(100);
+
+        if t.conn == "disc" && !t.tr {
+            // between connections
+            if r < 45 && can_client {
+                let p = self.connect_pkt(&v);
+                return Some(send(p));
+            }
+            if r < 80 && can_server {
+                let pv = if t.ver == "undet" { pick(&mut self.rng, &["v311", "v50", "v50"]).to_string() } else { v.clone() };
+                let p = self.connect_pkt(&pv);
+                return Some(recv(p));
+            }
+            if r < 84 {
+                return Some(Call::of("acquire"));
+            }
+            if r < 88 && !t.held.is_empty() {
+                let mut c = Call::of("release");
+                c.id = *pick(&mut self.rng, &t.held);
+                return Some(c);
+            }
+            if r < 93 && t.ver != "undet" {
+                // publish while disconnected (refused, or stored with offline publishing)
+                let qos = self.rng.range(0, 2);
+                if qos > 0 {
+                    self.want_publish = Some((qos, "t1".into(), 0));
+                    return Some(Call::of("acquire"));
+                }
+                let p = self.publish_pkt(&v, 0, 0, 0, false);
+                return Some(send(p));
+            }
+            if r < 96 && !t.stored_pubs.is_empty() {
+                let mut c = Call::of("erase");
+                c.id = *pick(&mut self.rng, &t.stored_pubs);
+                return Some(c);
+            }
+            if self.hostile() && can_server {
+                let k: &str = *pick(&mut self.rng, &["publish", "puback", "pingreq", "subscribe"]);
+                let mut p = P::of(k, &v);
+                p.pid = self.rng.range(0, 2);
+                p.qos = if p.kind == "publish" { self.rng.range(0, 2) } else { 0 };
+                if p.kind == "publish" { p.topic = "t1".into(); if p.qos == 0 { p.pid = 0; } }
+                return Some(recv(p));
+            }
+            let mut c = Call::of("register");
+            c.id = self.rng.range(0, 5);
+            return Some(c);
+        }
+
+        if t.conn == "disc" {
+            // transport open but connection gone (DISCONNECT sent / refused CONNACK): report the close
+            return Some(Call::of("closed"));
+        }
+
+        if t.conn == "connecting" {
+            if t.client {
+                if r < 70 {
+                    let p = self.connack_pkt(&v);
+                    return Some(recv(p));
+                }
+            } else if r < 70 {
+                let p = self.connack_pkt(&v);
+                return Some(send(p));
+            }
+            if r < 80 {
+                return Some(Call::of("closed"));
+            }
+            if r < 90 && t.ver != "undet" {
+                self.want_publish = Some((self.rng.range(1, 2), "t1".into(), 0));
+                return Some(Call::of("acquire"));
+            }
+            if !t.armed.is_empty() && r < 95 {
+                let mut c = Call::of("fire");
+                c.k = pick(&mut self.rng, &t.armed.iter().cloned().collect::<Vec<_>>()).clone();
+                return Some(c);
+            }
+            return Some(Call::of("acquire"));
+        }
+
+        // connected
+        let wq = self.w(&["qos", "ids", "crash", "mps", "reuse"], 14, 26);
+        let wi = self.w(&["inbound", "hostile", "crash", "mps"], 14, 26);
+        let wt = self.w(&["timers", "reuse"], 6, 22);
+        let wa = self.w(&["alias"], 0, 18);
+        let wh = self.w(&["hostile", "gate"], 0, 14);
+        let total = wq + wi + wt + wa + wh + 30;
+        let mut x = self.rng.below(total);
+
+        if x < wq {
+            // outbound QoS traffic
+            let c = self.rng.below(10);
+            if c < 4 {
+                let qos = self.rng.range(1, 2);
+                self.want_publish = Some((qos, pick(&mut self.rng, &["t1", "t2"]).to_string(), 0));
+                return Some(Call::of("acquire"));
+            }
+            let aw: Vec<(i64, String)> = t.awaiting.iter().map(|(k, v)| (*k, v.clone())).collect();
+            if c < 8 && !aw.is_empty() {
+                let (pid, kind) = pick(&mut self.rng, &aw).clone();
+                if kind == "pubrel" {
+                    return Some(send(Driver::ack("pubrel", &v, pid, 0)));
+                }
+                // mostly the matching acknowledgement, sometimes a wrong kind
+                let k = if self.rng.chance(1, 8) { pick(&mut self.rng, &["puback", "pubrec", "pubcomp"]).to_string() } else { kind };
+                let rc = if k == "pubrec" && self.rng.chance(1, 5) { 128 } else { 0 };
+                return Some(recv(Driver::ack(&k, &v, pid, rc)));
+            }
+            if c < 9 && !t.stored_pubs.is_empty() {
+                let mut e = Call::of("erase");
+                e.id = *pick(&mut self.rng, &t.stored_pubs);
+                return Some(e);
+            }
+            // an acknowledgement that matches nothing
+            let k = pick(&mut self.rng, &["puback", "pubrec", "pubcomp"]).to_string();
+            return Some(recv(Driver::ack(&k, &v, self.rng.range(30, 33), 0)));
+        }
+        x -= wq;
+        if x < wi {
+            // inbound QoS traffic
+            let c = self.rng.below(10);
+            if c < 5 {
+                let qos = self.rng.range(0, 2);
+                let pid = self.rng.range(1, 3);
+                let p = self.publish_pkt(&v, qos, pid, t.own_tam, true);
+                return Some(recv(p));
+            }
+            if c < 7 && !t.in_un.is_empty() {
+                let pid = *pick(&mut self.rng, &t.in_un.iter().cloned().collect::<Vec<_>>());
+                let k = if t.handled.contains(&pid) { if self.rng.chance(1, 2) { "pubrec" } else { "pubcomp" } } else { "puback" };
+                let rc = if k == "pubrec" && self.rng.chance(1, 4) { 128 } else { 0 };
+                return Some(send(Driver::ack(k, &v, pid, rc)));
+            }
+            if c < 9 {
+                let pid = if !t.handled.is_empty() && self.rng.chance(3, 4) { *pick(&mut self.rng, &t.handled.iter().cloned().collect::<Vec<_>>()) } else { self.rng.range(1, 3) };
+                return Some(recv(Driver::ack("pubrel", &v, pid, 0)));
+            }
+            return Some(send(Driver::ack("pubcomp", &v, self.rng.range(1, 3), 0)));
+        }
+        x -= wi;
+        if x < wt {
+            let c = self.rng.below(10);
+            if c < 4 && !t.armed.is_empty() {
+                let mut f = Call::of("fire");
+                f.k = pick(&mut self.rng, &t.armed.iter().cloned().collect::<Vec<_>>()).clone();
+                return Some(f);
+            }
+            if c < 6 && t.role != "server" {
+                return Some(send(P::of("pingreq", &v)));
+            }
+            if c < 7 {
+                return Some(recv(P::of(if t.client { "pingresp" } else { "pingreq" }, &v)));
+            }
+            if c < 8 && !t.client {
+                return Some(send(P::of("pingresp", &v)));
+            }
+            let mut s = Call::of("set_interval");
+            s.val = *pick(&mut self.rng, &[-1, 0, 7, 30]);
+            return Some(s);
+        }
+        x -= wt;
+        if x < wa {
+            // topic aliases, outbound
+            let qos = self.rng.range(0, 1);
+            let topic = pick(&mut self.rng, &["t1", "t2", "", ""]).to_string();
+            let hi = if self.hostile() { t.peer_tam + 1 } else { t.peer_tam.max(1) };
+            let alias = if topic.is_empty() || self.rng.chance(1, 2) { self.rng.range(1, hi.max(1)) } else { 0 };
+            if v != "v50" {
+                return Some(send(self.publish_pkt(&v, 0, 0, 0, false)));
+            }
+            if qos > 0 {
+                self.want_publish = Some((qos, topic, alias));
+                return Some(Call::of("acquire"));
+            }
+            let mut p = P::of("publish", &v);
+            p.topic = topic;
+            p.alias = alias;
+            p.msg = "m1".into();
+            return Some(send(p));
+        }
+        x -= wa;
+        if x < wh {
+            let c = self.rng.below(12);
+            if c < 2 {
+                return Some(Call::of("garbage"));
+            }
+            if c < 6 {
+                let k = pick(&mut self.rng, &["publish", "puback", "connack", "connect", "subscribe"]).to_string();
+                let mut p = P::of(&k, &v);
+                p.pid = 1;
+                p.qos = if k == "publish" { 1 } else { 0 };
+                p.topic = if k == "publish" { "t1".into() } else { "".into() };
+                p.clean = true;
+                p.bad = "MalformedPacket".into();
+                return Some(recv(p));
+            }
+            if c < 8 {
+                // a kind the peer may not send / a handshake packet on an established connection
+                let k = pick(&mut self.rng, &["connect", "connack", "subscribe", "suback", "pingreq", "pingresp", "auth", "unsuback"]).to_string();
+                let kv = if k == "auth" { "v50".to_string() } else { v.clone() };
+                let mut p = P::of(&k, &kv);
+                p.pid = 1;
+                p.clean = true;
+                return Some(recv(p));
+            }
+            if c < 10 {
+                // identifier 0 / unknown identifiers
+                let k = pick(&mut self.rng, &["puback", "pubrec", "pubrel", "pubcomp", "suback"]).to_string();
+                return Some(recv(Driver::ack(&k, &v, *pick(&mut self.rng, &[0, 0, 77]), 0)));
+            }
+            let mut rel = Call::of("release");
+            rel.id = *pick(&mut self.rng, &[0, 1, 65535, 77]);
+            return Some(rel);
+        }
+        // general traffic
+        let c = self.rng.below(30);
+        if c < 4 && t.role != "server" {
+            self.want_sub = Some(pick(&mut self.rng, &["subscribe", "unsubscribe"]).to_string());
+            return Some(Call::of("acquire"));
+        }
+        if c < 7 && !t.sub.is_empty() {
+            let pid = *pick(&mut self.rng, &t.sub.iter().cloned().collect::<Vec<_>>());
+            let k = pick(&mut self.rng, &["suback", "unsuback"]).to_string();
+            return Some(recv(Driver::ack(&k, &v, pid, 0)));
+        }
+        if c < 10 {
+            return Some(send(self.publish_pkt(&v, 0, 0, t.peer_tam, false)));
+        }
+        if c < 13 {
+            return Some(recv(self.publish_pkt(&v, 0, 0, t.own_tam, true)));
+        }
+        if c < 15 && !t.client {
+            let k: &str = *pick(&mut self.rng, &["subscribe", "unsubscribe"]);
+            let mut p = P::of(k, &v);
+            p.pid = self.rng.range(1, 3);
+            return Some(recv(p));
+        }
+        if c < 16 && !t.client {
+            let k: &str = *pick(&mut self.rng, &["suback", "unsuback"]);
+            let pid = self.rng.range(1, 3);
+            return Some(send(Driver::ack(k, &v, pid, 0)));
+        }
+        if c < 19 {
+            return Some(Call::of("closed")); // transport loss
+        }
+        if c < 20 {
+            let mut p = P::of("disconnect", &v);
+            if v == "v50" && self.rng.chance(1, 2) { p.rc = 4; }
+            return Some(if self.rng.chance(1, 2) && (t.role != "server" || v == "v50") { send(p) } else if t.client && v == "v311" { send(P::of("disconnect", &v)) } else { recv(p) });
+        }
+        if c < 22 && (self.profile == "crash" || self.profile == "qos" || self.profile == "inbound")
+            && t.held.is_empty() && !t.awaiting.values().any(|k| k == "pubrel")
+        {
+            return Some(Call::of("crash"));
+        }
+        if c < 23 && (self.profile == "reuse" || self.profile == "hostile") {
+            // the transport delivers only the first bytes of a frame, then dies
+            let mut p = P::of("publish", &v);
+            p.topic = "t1".into();
+            p.msg = "m1".into();
+            let mut pc = Call::of("recv");
+            pc.pkt = p;
+            pc.flag = false;
+            return Some(pc);
+        }
+        if c < 25 && !t.armed.is_empty() {
+            let mut f = Call::of("fire");
+            f.k = pick(&mut self.rng, &t.armed.iter().cloned().collect::<Vec<_>>()).clone();
+            return Some(f);
+        }
+        if c < 27 && v == "v50" {
+            return Some(if self.rng.chance(1, 2) { send(P::of("auth", &v)) } else { recv(P::of("auth", &v)) });
+        }
+        if t.held.len() < 3 { Some(Call::of("acquire")) } else {
+            let mut rel = Call::of("release");
+            rel.id = t.held[0];
+            Some(rel)
+        }
+    }
+}
+
+pub fn drive(trie: &mut Trie, st: &mut Stats, n: usize, seed: u64, steps: usize, profile: &str) {
+    let mut master = Rng::new(seed ^ 0x5eed);
+    for _ in 0..n {
+        let mut rng = Rng::new(master.next());
+        let role = *pick(&mut rng, &["client", "client", "server", "server", "any"]);
+        let ver = if role == "client" { *pick(&mut rng, &["v311", "v50", "v50"]) } else { *pick(&mut rng, &["v311", "v50", "v50", "undet"]) };
+        let idw = if rng.chance(1, 4) { 32 } else { 16 };
+        let mut first = Call::of("new");
+        first.role = role.into();
+        first.ver = ver.into();
+        first.idw = idw;
+        let mut setup = VecDeque::new();
+        for name in ["offline", "auto_pub", "auto_ping", "auto_map", "auto_replace"] {
+            let p = match (name, profile) {
+                ("auto_pub", _) => 2,
+                ("auto_map", "alias") | ("auto_replace", "alias") => 2,
+                ("offline", "qos") | ("offline", "gate") => 3,
+                _ => 5,
+            };
+            if rng.chance(1, p) {
+                let mut c = Call::of("opt");
+                c.name = name.into();
+                c.flag = true;
+                setup.push_back(c);
+            }
+        }
+        if rng.chance(1, 3) {
+            let mut c = Call::of("set_resp_timeout");
+            c.val = *pick(&mut rng, &[3, 3000]);
+            setup.push_back(c);
+        }
+        let mut d = Driver { rng, steps, profile: profile.to_string(), first, setup, pending: VecDeque::new(),
+                             want_publish: None, want_sub: None, msg: 0 };
+        execute_from(trie, &mut d, st);
+    }
+}
